@@ -325,9 +325,8 @@ class _write_line:
     modifies = ['self.writer.out']
     loops = {0: LoopContract(invariant=_fits_inv, havoc=dict(string=Text()), entry_snapshot=True,
                              never_iterates=True)}
-    note = ('proved for lines that fit (at most 254 characters before the line break: one chunk, '
-            'the line itself); the chunking of longer lines is checked only natively (BOUNDED: '
-            'lengths up to 600) -- every chunk written is at most 255 characters and ends in LF')
+    note = ('two contracts: for callers, lines that fit (one chunk, the line itself); variant '
+            '[any-length]: a text of symbolic length, chunking proved by loop invariant and variant')
 
     def requires_fits_on_one_line(self, string):
         return len(string) <= 254
@@ -406,3 +405,51 @@ class _:
         return len(games) == 2 and conj(
             forall(range(15), lambda i: games[0][PBN.MANDATORY_TAGS[i]] == a[i]),
             forall(range(15), lambda i: games[1][PBN.MANDATORY_TAGS[i]] == b[i]))
+
+
+# ---- write_line for lines of ANY length (scenario variant of the contract above) -----------------
+
+from pyvc.dsl import CharSeq
+from pyvc.speclib import char_code, forall_int, is_suffix_view, text_len
+
+NL = 10
+
+
+def _long_inv(self, string, entry):
+    """`string` is what is left of the (LF-terminated) line: a suffix of it, itself ending in LF."""
+    s1 = entry.string
+    return conj(is_suffix_view(string, s1), text_len(string) >= 1,
+                char_code(s1, text_len(s1) - 1) == NL)
+
+
+def _long_variant(string):
+    return text_len(string)
+
+
+def _chunk_written(self, iter, part_string):
+    """C18: a chunk is exactly 255 characters: the next 254 characters of the line and a line
+    break."""
+    return conj(wout(self) == [part_string], text_len(part_string) == 255,
+                char_code(part_string, 254) == NL,
+                forall_int(0, 254, lambda i: char_code(part_string, i) == char_code(iter.string, i)))
+
+
+def _last_chunk(self, frame):
+    """... and the rest (at most 255 characters, ending in the line break) is written last."""
+    s = frame.string
+    return conj(wout(self)[-1] == s if len(wout(self)) >= 1 else False, text_len(s) <= 255,
+                text_len(s) >= 1, char_code(s, text_len(s) - 1) == NL)
+
+
+_REG.fns['bridge_env.data_handler.pbn_handler.writer.PbnWriter.write_line'].variants = {
+    'any-length': dict(
+        fresh_params=None, sample_params=None,
+        params=dict(string=CharSeq(1)),
+        requires=[],
+        ensures=[('no_line_exceeds_255_characters', _last_chunk)],
+        native_ensures=[('chunks_bounded', 'loop0.body/chunk_written',
+                         lambda self, old: _chunks_ok(wout(old.self), wout(self)))],
+        loops={0: LoopContract(invariant=_long_inv, variant=_long_variant, entry_snapshot=True,
+                               havoc=dict(string=CharSeq(1), part_string=CharSeq(0)),
+                               havoc_heap={'self.writer': Ext('file', dict(out=TraceReset()))},
+                               body_ensures=dict(chunk_written=_chunk_written))})}
